@@ -2,7 +2,7 @@
    (helper tables, helper calls, get_triggers / get_transitions after every step).
    Strings travel as lists of character codes. *)
 From Coq Require Import List Arith Bool String Ascii.
-From M Require Import Sx Naming.
+From M Require Import Sx Naming NamingHIO.
 Import ListNotations.
 
 
@@ -241,8 +241,13 @@ Definition run_naming_case (x : sx) : sx :=
   match x with
   | L (N 0 :: rest) => run_flat_naming rest
   | L (N 1 :: rest) => run_nested_naming rest
-  (* hierarchical reconfiguration stream: no model of nested scopes; the reference relation and
-     the clauses live in the harness (c11_hrec.py); the answer is "no clause is violated" *)
-  | L (N 2 :: _) => L [N 1; L []]
+  (* hierarchical reconfiguration stream: the reference relation and the clauses live in the
+     harness (c11_hrec.py), the answer to them is "no clause is violated"; get_triggers of
+     every state after every operation is computed by NamingH.get_triggers_h on the event
+     tables (by declaring scope) of the reference relation *)
+  | L [N 2; L hs] => L [N 1; L []; L (map run_naming_h hs)]
+  (* static nested stream: the string model of names / helpers, and NamingH.is_helper_h /
+     get_triggers_h on the same machine with numbered states *)
+  | L [N 3; L rest; h] => L [N 3; run_nested_naming rest; run_naming_h h]
   | _ => L [N 0]
   end.
